@@ -1421,7 +1421,11 @@ func (m *RadioTap) DecodeFromBytes(data []byte, df gopacket.DecodeFeedback) erro
 			headlen += 2
 		}
 		if headlen%4 == 2 && len(payload) >= headlen+2 {
-			payload = append(payload[:headlen], payload[headlen+2:len(payload)]...)
+			// into a new slice: appending to payload[:headlen] would shift the
+			// rest of the frame inside the buffer the caller handed in
+			stripped := make([]byte, 0, len(payload)-2)
+			stripped = append(stripped, payload[:headlen]...)
+			payload = append(stripped, payload[headlen+2:]...)
 		}
 	}
 
